@@ -78,9 +78,17 @@ func equalsExpr(t types.Type, x, y value) *Expr {
 	switch x := x.(type) {
 	case symv:
 		return symEqScalar(x, y)
+	case opaqstr:
+		return opaqEq(x, y)
 	case symstr:
+		if yo, ok := y.(opaqstr); ok {
+			return opaqEq(yo, x)
+		}
 		return symStrEq(x, toSymstr(y))
 	case string:
+		if yo, ok := y.(opaqstr); ok {
+			return opaqEq(yo, x)
+		}
 		if ys, ok := y.(symstr); ok {
 			return symStrEq(toSymstr(x), ys)
 		}
@@ -116,7 +124,7 @@ func equalsExpr(t types.Type, x, y value) *Expr {
 			return trueE
 		}
 		if !types.Comparable(x.t) {
-			panic(targetPanic{rtError("comparing uncomparable type " + x.t.String())})
+			panic(targetPanic{v: rtError("comparing uncomparable type " + x.t.String())})
 		}
 		return equalsExpr(x.t, x.v, y.v)
 	case unsafe.Pointer:
@@ -132,6 +140,24 @@ func equalsExpr(t types.Type, x, y value) *Expr {
 	// case is only reachable if one of x or y is literally nil
 	// (handled in eqnil) or via interface{} values.
 	panic(fmt.Sprintf("comparing uncomparable type %s (%T)", t, x))
+}
+
+// opaqEq compares the string form of a symbolic cpuset with another string.
+func opaqEq(x opaqstr, y value) *Expr {
+	switch y := y.(type) {
+	case opaqstr:
+		if y.tag != x.tag {
+			panic(unsupported{"comparison of different opaque strings"})
+		}
+		return mkEq(x.e, y.e)
+	case string:
+		m, err := cpusetParse(y)
+		if err != nil || cpusetString(m) != y {
+			return falseE // not a canonical cpuset string
+		}
+		return mkEq(x.e, bvConst(cpusetWidth, m))
+	}
+	panic(unsupported{"comparison of the string form of a symbolic cpuset with a symbolic string"})
 }
 
 func symEqScalar(x, y value) *Expr {
@@ -203,6 +229,9 @@ func writeValue(buf *bytes.Buffer, v value, depth int) {
 
 	case symv:
 		fmt.Fprintf(buf, "<sym %s>", v.e)
+
+	case opaqstr:
+		fmt.Fprintf(buf, "<%s-string>", v.tag)
 
 	case symstr:
 		buf.WriteString("<symstr ")
